@@ -78,7 +78,7 @@ def spaces(tier, seed):
         Product("defaults-corpus", {"src": ["corpus"], "s": cor_idx, "li": range(25), "ugo": [False], "dl": ["en", "detected", "other"],
                                     "via": ["languages", "locales"]}),
         Product("all-language-pairs-numeric", {"a": range(len(vocab.language_order())), "b": range(len(vocab.language_order())),
-                                               "ns": ["10/03/2015", "03-04-05 10:30"], "ugo": [False, True]},
+                                               "ns": ["10/03/2015", "03-04-05 10:30", "02/13/2019"], "ugo": [False, True]},
                 note="every ordered pair of the 205 languages on numeric dates every language accepts: the higher-priority (or first given) language decides"),
         Product("autodetect-reproducible", {"src": ["gen", "corpus"], "s": range(max(len(gen), len(cor)))}),
         Product("region-equals-locale", {"rl": range(len(regional)), "k": range(4)}),
